@@ -432,6 +432,100 @@ func c18Resubscribe() vs.Verdict {
 	return f.verdict(fmt.Sprintf("updates=%d", updates))
 }
 
+// c18ReadRace: a resources/read is in flight on a caching (2026-07-28, subscribed) session while
+// the resource changes: the server computed the pre-change answer, the change happens and its
+// resources/updated is handled by the client, then the pre-change answer arrives.  A read issued
+// after the notification was handled must see the change, whether anything was cached under the
+// URI at the time of the notification (cached-and-expired entry) or not (first read).
+func c18ReadRace() vs.Verdict {
+	f := &e1Fail{prefix: "c18 read-race"}
+	ctx := context.Background()
+	vs.Quiet(true)
+	const uri = "file:///r1"
+	s := NewServer(&Implementation{Name: "srv", Version: "1"}, &ServerOptions{Logger: quietLogger,
+		SubscribeHandler:   func(context.Context, *SubscribeRequest) error { return nil },
+		UnsubscribeHandler: func(context.Context, *UnsubscribeRequest) error { return nil },
+	})
+	content := "v1"
+	ctl := vs.NewController()
+	gate := ctl.Gate("read-answer-computed")
+	armed := false
+	computed := make(chan struct{})
+	s.AddResource(&Resource{URI: uri, Name: "r1"}, func(context.Context, *ReadResourceRequest) (*ReadResourceResult, error) {
+		res := &ReadResourceResult{Contents: []*ResourceContents{{URI: uri, Text: content}}}
+		res.TTLMs = 60000
+		if armed {
+			armed = false
+			close(computed)
+			gate.Wait()
+		}
+		return res, nil
+	})
+	updates := 0
+	cl := NewClient(&Implementation{Name: "cli", Version: "1"}, &ClientOptions{Logger: quietLogger,
+		ResourceUpdatedHandler: func(context.Context, *ResourceUpdatedNotificationRequest) {
+			updates++
+			vs.Event("update handled")
+		}})
+	ct, st := NewInMemoryTransports()
+	if _, err := s.Connect(ctx, st, nil); err != nil {
+		return vs.Verdict{Bad: err.Error(), Sig: "c18 setup"}
+	}
+	cs, err := cl.Connect(ctx, ct, &ClientSessionOptions{ProtocolVersion: "2026-07-28"})
+	if err != nil {
+		return vs.Verdict{Bad: err.Error(), Sig: "c18 setup"}
+	}
+	if err := cs.Subscribe(ctx, &SubscribeParams{URI: uri}); err != nil {
+		return vs.Verdict{Bad: "subscribe: " + err.Error(), Sig: "c18 setup"}
+	}
+	vs.WaitIdle()
+	read := func() string {
+		r, err := cs.ReadResource(ctx, &ReadResourceParams{URI: uri})
+		if err != nil || len(r.Contents) != 1 {
+			f.failf("read-failed", "%v %v", r, err)
+			return ""
+		}
+		return r.Contents[0].Text
+	}
+	primed := vs.Choose("entry-cached-and-expired-before", 2, 0) == 1
+	if primed {
+		read()
+		time.Sleep(61 * time.Second)
+	}
+	vs.Quiet(false)
+	armed = true
+	done := make(chan string, 2)
+	vs.Go(func() {
+		done <- read() // computed before the change; "v1" is a fine answer for this call
+	})
+	vs.Go(func() {
+		<-computed
+		content = "v2"
+		vs.Event("changed")
+		if err := s.ResourceUpdated(ctx, &ResourceUpdatedNotificationParams{URI: uri}); err != nil {
+			f.failf("update-failed", "%v", err)
+		}
+		done <- ""
+	})
+	first := <-done + <-done
+	vs.WaitIdle()
+	ctl.Stop()
+	vs.Quiet(true)
+	time.Sleep(time.Second)
+	vs.WaitIdle()
+	if updates != 1 {
+		f.failf("update-lost", "the subscribed session handled %d resources/updated notifications for one update", updates)
+	}
+	second := read()
+	if updates == 1 && second != "v2" {
+		f.failf("read-after-notification-stale", "resources/read issued after resources/updated was handled returned %q; the server has had \"v2\" since before the notification was sent (the read in flight across the change returned %q; entry cached and expired before: %v)", second, first, primed)
+	}
+	cs.Close()
+	vs.WaitIdle()
+	vs.Quiet(false)
+	return f.verdict(fmt.Sprintf("primed=%v first=%s second=%s", primed, first, second))
+}
+
 var c18MaxBurst = 3
 
 func TestVerifC18(t *testing.T) {
@@ -446,6 +540,7 @@ func TestVerifC18(t *testing.T) {
 		vs.E1(t, "burst/slow-peer-during-fan-out", env.Pick(1, 2), vs.Options{NoFreeRun: "the stalled write holds the connection's write mutex while the harness waits for virtual time"}, func() vs.Verdict { return c18Run(c18Opts{slowPeer: true}) }),
 		vs.E1(t, "burst/faulty-peer-during-fan-out", env.Pick(1, 2), vs.Options{}, func() vs.Verdict { return c18Run(c18Opts{faultyPeer: true}) }),
 		vs.E1(t, "resubscribe/2026-07-28", env.Pick(2, 3), vs.Options{}, func() vs.Verdict { return c18Resubscribe() }),
+		vs.E1(t, "read-in-flight-across-update/ttl=60s", env.Pick(2, 3), vs.Options{}, func() vs.Verdict { return c18ReadRace() }),
 		vs.E1(t, "burst/capability-disabled", env.Pick(0, 1), vs.Options{}, func() vs.Verdict { return c18Run(c18Opts{capabilityOff: true}) }),
 	}
 	env.Run(scs)
